@@ -260,7 +260,53 @@ theorem reachable_inv (ops : List DbOp) : (DB.run {} ops).Inv pin0 :=
 
 theorem reachable_wf (ops : List MOp) : (Table.run {} ops).WF := wf_run wf_empty ops
 
-/-! ## 5. non-vacuity: concrete instances of the hypotheses -/
+/-! ## 5. trace tables: the secondary index belongs to the same state (finding F19) -/
+
+/-- repaired procedure: for every environment, the index parts in the copy are exactly those of the core parts in
+    the copy, and all of them survive opening it. -/
+theorem trace_snapshot_index_consistent (t : Table) (hwf : t.WF) (S : Snap) (hcur : t.cur = some S)
+    (hne : S.diskParts ≠ []) (early : List MOp) (hooks : Nat → List MOp) :
+    ∃ t' d, takeTraceSnapshot t early hooks none = (t', .ok, some d)
+      ∧ d.core = S.image ∧ d.index = d.core.parts.map (·.id) ∧ d.openIndex = d.index := by
+  obtain ⟨t', hr, _, _⟩ := table_snapshot_consistent t hwf S hcur hne
+    (fun p => (if p = 0 then early else []) ++ hooks p)
+  have hidx : t.indexIds = S.image.parts.map (·.id) := by
+    simp [Table.indexIds, hcur, Snap.image, List.map_map]
+    intro a _; rfl
+  refine ⟨t', ⟨S.image, t.indexIds⟩, ?_, rfl, hidx, ?_⟩
+  · unfold takeTraceSnapshot
+    simp only [tableSnapshot] at hr
+    rw [hr]; rfl
+  · unfold TraceDst.openIndex
+    rw [List.filter_eq_self]
+    intro id hid
+    rw [hidx] at hid
+    simp only [Snap.image, List.map_map, List.mem_map] at hid
+    obtain ⟨pw, hp, rfl⟩ := hid
+    simp only [Snap.image, Option.getD_some, Snap.ids]
+    rw [List.contains_iff_mem]
+    exact List.mem_map_of_mem (f := (·.id)) (diskParts_spec pw hp).1
+
+/-- two flushed batches, indexed. -/
+def exTrace : Table := Table.run {} [.introduce 1, .flush, .introduce 2, .flush]
+
+/-- the procedure as written (F19): a merge published between the pin of the core snapshot and the pin of the
+    index gives a copy with core parts 1,2 and index part 3; opening it deletes that part: the ordered index of
+    the restored table is empty although both traces are there. -/
+theorem trace_snapshot_legacy_counterexample :
+    (takeTraceSnapshot_legacy exTrace [.merge [0, 1]] (fun _ => []) none).2.2.map
+        (fun d => (d.core.parts.map (·.id), d.index, d.openIndex)) = some ([1, 2], [3], [])
+    ∧ (takeTraceSnapshot exTrace [.merge [0, 1]] (fun _ => []) none).2.2.map
+        (fun d => (d.core.parts.map (·.id), d.index, d.openIndex)) = some ([1, 2], [1, 2], [1, 2]) := by
+  decide
+
+/-- … and a flush published there leaves index entries for a batch whose spans are not in the copy. -/
+theorem trace_snapshot_legacy_counterexample_flush :
+    (takeTraceSnapshot_legacy (Table.run {} [.introduce 1, .flush, .introduce 2]) [.flush] (fun _ => []) none).2.2.map
+        (fun d => (content (recover d.core), d.index, d.openIndex)) = some ([1], [1, 2], [1, 2]) := by
+  decide
+
+/-! ## 6. non-vacuity: concrete instances of the hypotheses -/
 
 /-- three flushed batches and one in memory. -/
 def exTable : Table := Table.run {} [.introduce 1, .introduce 2, .flush, .introduce 3, .flush, .introduce 4]
